@@ -2653,11 +2653,16 @@ func (p *Parser) evaluateSubscript(ctx context) (Expression, error) {
 	}
 
 	if !isSlice {
-		return StringSubscript{
+		subscript := StringSubscript{
 			value:      value,
 			startIndex: startIndex,
-			endIndex:   endIndex,
-		}, nil
+		}
+
+		// A single index (s[i]) has no separate end-index, it must not be evaluated twice.
+		if gotRange {
+			subscript.endIndex = endIndex
+		}
+		return subscript, nil
 	}
 	return SliceEvaluation{
 		value:    value,
